@@ -115,6 +115,8 @@ type dKnobs struct {
 	MidWaitPct   int // probability that a third party changes something while a disrupt step waits to validate
 	// MidWaitBlockers: mid-wait changes are mostly the ones that protect the node they land on
 	MidWaitBlockers bool
+	// MidWaitKinds (optional): the kinds of mid-wait changes to draw from
+	MidWaitKinds []string
 }
 
 func defaultDKnobs() dKnobs {
@@ -428,6 +430,12 @@ func drawDisrupt(t *rapid.T, k dKnobs) *dScenario {
 		case "disrupt":
 			if k.Mutations && dpct(t, k.MidWaitPct, l+"_midWait") {
 				m := drawMut(t, l, w)
+				if len(k.MidWaitKinds) > 0 {
+					m.Kind = rapid.SampledFrom(k.MidWaitKinds).Draw(t, l+"_midWaitKindOf")
+					if m.Kind == "nodeNotReady" {
+						m.Arg = rapid.SampledFrom([]string{"", "Unknown", "Missing"}).Draw(t, l+"_midWaitArg")
+					}
+				}
 				if k.MidWaitBlockers {
 					// a change that protects the node it lands on
 					m.Kind = rapid.SampledFrom([]string{"podAnnotate", "nodeAnnotate", "pdbBlock", "nominate", "podAnnotate", "nodeAnnotate", "addPod", "claimDelete"}).Draw(t, l+"_midWaitKind")
